@@ -104,9 +104,8 @@ MaskFails(ins, fl, out) ==
      ELSE IF noflags THEN
         (IF out.tag = "sig" THEN Clause(~C03_Exact(sig, fl.n, names, out.ps, Calls), "C03_Exact")
                                  \cup Clause(~C03_RaiseIff(sig, fl.n, names, FALSE, CallsBig), "C03_RaiseIff")
-         (* ... except that with hide_args the hidden positionals may themselves fill a positional-or-keyword parameter that is *)
-         (* also named: mask may then refuse ("duplicate argument") although sig could take the names alone                    *)
-         ELSE IF out.tag = "valueerror" /\ ~(fl.ha /\ names \cap {sig[x].n : x \in {y \in DOMAIN sig : sig[y].k = "pok"}} # {})
+         (* (hide_args hides the positional-or-keyword parameters the n arguments did not bind; they may still be named) *)
+         ELSE IF out.tag = "valueerror"
               THEN Clause(~C03_RaiseIff(sig, fl.n, names, TRUE, CallsBig), "C03_RaiseIff")
          ELSE {})
      ELSE
@@ -115,9 +114,8 @@ MaskFails(ins, fl, out) ==
          \cup Clause(~C03_HideSound(sig, fl.n, names, out.ps, Calls, CallsBig), "C03_HideSound")
          (* the hide flags only remove parameters from the result: whether mask raises is decided by n and the names alone *)
          \cup Clause(~C03_RaiseIff(sig, fl.n, names, FALSE, CallsBig), "C03_RaiseIff")
-         (* ... except that with hide_args the hidden positionals may themselves fill a positional-or-keyword parameter that is *)
-         (* also named: mask may then refuse ("duplicate argument") although sig could take the names alone                    *)
-         ELSE IF out.tag = "valueerror" /\ ~(fl.ha /\ names \cap {sig[x].n : x \in {y \in DOMAIN sig : sig[y].k = "pok"}} # {})
+         (* (hide_args hides the positional-or-keyword parameters the n arguments did not bind; they may still be named) *)
+         ELSE IF out.tag = "valueerror"
               THEN Clause(~C03_RaiseIff(sig, fl.n, names, TRUE, CallsBig), "C03_RaiseIff")
          ELSE {})
 
